@@ -24,7 +24,7 @@ def R(mod, name, cfg="rc"):
 
 PROPS = {
     "C15": dict(
-        rules=[R("strings", "rule_unsafe_bounds"), R("strings", "rule_str_option")],
+        rules=[R("strings", "rule_unsafe_bounds"), R("strings", "rule_str_option"), R("strings", "rule_slice_tail")],
         clause="A string value can only be built from bounds validated against its data, so slicing cannot yield malformed "
                "text (R-UNSAFE-BOUNDS); a slice that would cut through a character becomes an error, never an unwrap "
                "(R-STR-OPTION). Not decided: results of split/trim/replace/format, grapheme segmentation, width arithmetic.",
@@ -106,11 +106,13 @@ PROPS = {
         technique="generic-argument census of the parser's error constructors + MIR region/dominance analysis",
     ),
     "C11": dict(
-        rules=[R("front", "rule_fmt_fields"), R("front", "rule_fmt_variants")],
+        rules=[R("front", "rule_fmt_fields"), R("front", "rule_fmt_variants"), R("front", "rule_column_bytes")],
         clause="Every syntax-carrying AST field is read by the formatter (R-FMT-FIELDS) and every Node variant has its "
-               "own arm in format_node (R-FMT-VARIANTS): a field never read cannot influence the output. Not decided: "
-               "idempotence, comment order, Unicode slicing, how a field that is read gets rendered.",
-        technique="field-read census over koto_format's MIR against the AST's ADT facts; HIR arm list",
+               "own arm in format_node (R-FMT-VARIANTS): a field never read cannot influence the output; source text that "
+               "is re-emitted verbatim (numbers, debug expressions) is not located by using a display column as a byte "
+               "offset (R-COLUMN-BYTES). Not decided: idempotence, comment order, how a field that is read gets rendered.",
+        technique="field-read census over koto_format's MIR against the AST's ADT facts; HIR arm list; unit taint "
+                  "(display column -> str slice bound) over expression trees",
     ),
     "C13": dict(
         rules=[R("iters", "rule_iter_copy"), R("iters", "rule_iter_err"), R("iters", "rule_iter_lazy"),
@@ -134,7 +136,7 @@ PROPS = {
     "C06": dict(
         rules=[R("borrow", "rule_borrow"), R("arith", "rule_arith"), R("arith", "rule_rem_zero"), R("arith", "rule_accum"),
                R("arith", "rule_num_wrap"), R("narrow", "rule_narrow"), R("narrow", "rule_vm_regs"),
-               R("narrow", "rule_cursor")],
+               R("narrow", "rule_cursor"), R("front", "rule_column_bytes"), R("strings", "rule_slice_tail")],
         clause="Panic families visible in code shape: a RefCell guard of a shared container held across re-entrant or "
                "aliasing code (R-BORROW); script-supplied i64 values reaching overflow-/zero-/shift-checked arithmetic "
                "with no dominating guard of the needed kind (R-ARITH, R-REM-ZERO); digit accumulators in input-driven "
@@ -142,7 +144,8 @@ PROPS = {
                "arithmetic (R-NUM-WRAP); the compiler's byte-width arithmetic and narrowing casts on program-size "
                "quantities are bounded (R-NARROW), and the VM does not add to a frame's register count in byte "
                "arithmetic (R-VM-REGS); an iterator cursor that can step past its input's length is compared with it "
-               "before `len - cursor` (R-CURSOR). Not decided: panic-freedom in general (unwrap/index sites justified by data "
+               "before `len - cursor` (R-CURSOR); span columns are not used as byte offsets of str slices (R-COLUMN-BYTES), and a constant number of "
+               "bytes is cut off a string's end only after an ends_with test (R-SLICE-TAIL). Not decided: panic-freedom in general (unwrap/index sites justified by data "
                "invariants are out of scope and counted as undecided where met).",
         technique="guard live-range dataflow over MIR x whole-workspace call graph (CHA + callback-through-bounds "
                   "edges); Assert-terminator census with dominating-guard classification",
